@@ -2,13 +2,14 @@
 from ..scen_sorter import sorter
 from ..scen_go import go_chain
 from ..kani import kani_family
-from ..scen_misc import sort_functions, value_order_arms
+from ..scen_misc import sort_functions, value_order_arms, sort_comparators
 
 
 def run(ctx):
     sorter(ctx, want_order=True, want_topn=True)      # the top-N shortcut must not disturb the order of what it keeps
     go_chain(ctx, want=('go.chain', 'go.capacity'))
     sort_functions(ctx)
+    sort_comparators(ctx)
     value_order_arms(ctx)         # first --sort-by innermost => runs last => most significant under stable sorting
     specs = [('k_number_order_axioms', 'number-order-axioms', 'Ord for NumberValue: antisymmetric, reflexive, cmp==Equal <=> ==, agrees with the real order (parser normal form, |n| < 2^53 or non-integral)'),
              ('k_scalar_rank_and_eq_hash', 'scalar-rank', 'null < false < true < strings < numbers; cmp==Equal <=> ==; Eq => equal hash transcript')]
